@@ -209,6 +209,27 @@ def C10_7(ctx, facts):
     c11.every_popped_started(ctx, facts)
 
 
+def C10_9(ctx, facts):
+    """Every completed attempt is looked at by join_next - the one place that turns `Some(Ok(x))` into the success outcome.  A second
+    consumer of the task set (a drain helper, a `now_or_never()` sweep) could take a finished *success* out of the set and drop it:
+    the connect would then report failure although a candidate accepted."""
+    sites = []
+    for g in facts.fns.values():
+        if not g.nkey.startswith("happy_eyeballs"):
+            continue
+        for c in g.calls():
+            t0 = (c.t.get("argtys") or [""])[0]
+            nm = norm(c.name).split("::")[-1]
+            if "FuturesUnordered<" in t0 and nm in ("next", "poll_next", "poll_next_unpin", "try_next", "select_next_some", "into_iter", "iter_mut", "iter_pin_mut", "clear", "collect", "into_future"):
+                sites.append(c)
+    ctx.floor("tasks|consumers", len(sites), 1, "places that take finished attempts out of the task set")
+    for c in sites:
+        import panics
+        ok = any(nm_ == "happy_eyeballs::EyeballSet::join_next" for nm_ in panics.owner_chain(c.fn))
+        ctx.check(ok, "tasks|consumer|%s" % c.fn.nkey.replace("happy_eyeballs::", ""), "finished attempts are taken out of the set in join_next only (which reports every success)",
+                  "finished attempts are also taken out of the set in %s: a success consumed there is lost" % c.fn.nkey, c.where())
+
+
 def C10_8(ctx, facts):
     """Candidate set-up is not allowed to abort the whole connect: in TcpConnecting::connect every address popped from the
     list becomes an attempt in the EyeballSet before the next pop / before the set is awaited / before any return.  (An early
@@ -240,6 +261,7 @@ def C10_8(ctx, facts):
 
 
 RULES = [
+    ("C10.9", C10_9, ["default"]),
     ("C10.8", C10_8, ["default"]),
     ("C10.7", C10_7, ["default"]),
     ("C10.1", C10_1, ["default"]),
